@@ -148,7 +148,13 @@ def run_thorough(prop, pc, units, seed):
     def _real_failures(u, r):
         """failures of a unit run that count: not a listed finding, not inside a function with new un-normalised closures"""
         brc = _base_rc(u)
-        return [f for f in r["failures"] if not match_known(known0, prop, u, f, any_prop=True) and not (f.get("rc", 0) > brc.get(f["fn"], 0))]
+        try:
+            bl = json.load(open(os.path.join(VERIF, "baseline", u + ".json"))).get("loops")
+        except Exception:
+            bl = None
+        def _loops_changed(f):
+            return bl is not None and "nl" in f and f["nl"] != bl.get(f["fn"], 0)
+        return [f for f in r["failures"] if not match_known(known0, prop, u, f, any_prop=True) and not (f.get("rc", 0) > brc.get(f["fn"], 0)) and not _loops_changed(f)]
     # mutants
     muts = []
     mfile = os.path.join(VERIF, "mutants.json")
@@ -348,6 +354,13 @@ def main(argv):
             if rc > base.get("residual_closures", {}).get(f["fn"], 0):
                 undecided.append(f"{u}: failing obligation in a function that now contains {rc} closure(s) the normaliser does not expand "
                                  f"(unsupported construct, not a verdict): {oid}")
+                continue
+            # loop contracts are attached by loop ordinal: when the number of loops of the function differs from the baselined one (a loop
+            # was added, removed or produced by a normalisation rule that did not fire before), the invariants may sit on the wrong loops
+            nl = (f.get("fn_info") or {}).get("n_loops", 0)
+            if "loops" in base and nl != base["loops"].get(f["fn"], 0):
+                undecided.append(f"{u}: failing obligation in a function whose loop structure changed ({base['loops'].get(f['fn'], 0)} -> {nl} loops; "
+                                 f"loop contracts are attached by ordinal - lost anchor, not a verdict): {oid}")
                 continue
             if f["fn"] not in base["functions"] and f["fn"] not in base.get("known_failing_functions", []):
                 undecided.append(f"{u}: failing obligation in a function that is not in the baseline: {oid}")
